@@ -58,9 +58,12 @@ type FuncSpec struct {
 	Where    string
 	Asserts  map[string]bool
 	Asserts2 []AssertClause // obligations at call sites
+	GhostSets []GhostSet  // ghost assignments attached to program points
 	GhostInit []GhostInit // ghost entries of freshly allocated results defined at return
 	NoWrap   bool     // stated assumption: unsigned additions in this function do not wrap around
 	Opaque   []string // predicates kept opaque (uninterpreted over their computed footprint) while verifying this function
+	AbstractAs string // own postconditions are proved through the ghost abstractions, an interface-typed argument of an
+	                  // abstraction being the implementation object of this (pointer) type - for constructors that return the interface
 	Inline   bool     // callers translate the body in place (the contract is verified for the function on its own, not used at call sites)
 	Refines  []string // interface methods ("pkg.Iface.Method") whose contract this implementation must satisfy
 }
@@ -76,8 +79,25 @@ type AssertClause struct {
 	Where  string
 }
 
+// GhostSet: `ghostset label after store <Field>#<n>: g(k1, k2) = expr` or `ghostset label before <callee>#<n>: g(k) = expr`
+// - a specification-only assignment executed at that program point (the n-th store to a field of that name / the n-th
+// call of that callee, in source order). The ghost must be covered by the function's modifies clause like any write.
+type GhostSet struct {
+	Label  string
+	Store  string // field name (after store) or ""
+	Callee string // callee suffix (before/after call) or ""
+	After  bool   // after the call (its effects included)
+	N      int
+	Ghost  string
+	Keys   []ast.Expr
+	Val    ast.Expr
+	Src    string
+	Where  string
+}
+
 type GhostInit struct {
 	Ghost string
+	Key2  ast.Expr // second key (two-key ghosts, entry form)
 	Key   ast.Expr
 	Val   ast.Expr
 	Src   string
@@ -167,7 +187,7 @@ func extractSpecLines(text string) (lines []string, nums []int) {
 	return
 }
 
-var clauseKeywords = []string{"requires", "ensures", "modifies", "loop", "invariant", "decreases", "let", "fresh", "pure", "trusted", "effect", "crash", "havoc", "assume", "refines", "ghostinit", "assert", "opaque", "inline", "detail"}
+var clauseKeywords = []string{"requires", "ensures", "modifies", "loop", "invariant", "decreases", "let", "fresh", "pure", "trusted", "effect", "crash", "havoc", "assume", "refines", "ghostinit", "assert", "opaque", "inline", "detail", "ghostset", "abstractas"}
 var blockKeywords = []string{"func", "invoke", "ghost", "spec", "pred", "axiom", "global", "abstraction", "writers", "typeinv", "callbackframe", "locked"}
 
 func firstWord(s string) (string, string) {
@@ -672,6 +692,38 @@ func (sp *Specs) parseSpecText(file, text, pkgPath string) {
 				}
 				n, _ := strconv.Atoi(m[3])
 				cur.Asserts2 = append(cur.Asserts2, AssertClause{Label: m[1], Callee: m[2], N: n, Expr: e, Src: rw, Where: where})
+			case "ghostset":
+				m := regexp.MustCompile(`^([A-Za-z_][A-Za-z0-9_]*)\s+(after\s+store|after|before)\s+(\S+)#([0-9]+)\s*:\s*([A-Za-z_][A-Za-z0-9_]*)\((.*?)\)\s*=\s*(.*)$`).FindStringSubmatch(rest)
+				if m == nil {
+					sp.errf(where, "bad ghostset clause (ghostset label after store Field#n: g(keys) = expr)")
+					continue
+				}
+				gs := GhostSet{Label: m[1], Ghost: m[5], Src: rest, Where: where}
+				gs.N, _ = strconv.Atoi(m[4])
+				if strings.HasSuffix(m[2], "store") {
+					gs.Store = m[3]
+				} else {
+					gs.Callee = m[3]
+					gs.After = m[2] == "after"
+				}
+				bad := false
+				for _, k := range splitTop(m[6], ',') {
+					ke, _, err := parseSpecExpr(strings.TrimSpace(k))
+					if err != nil {
+						sp.errf(where, "ghostset key: %v", err)
+						bad = true
+					}
+					gs.Keys = append(gs.Keys, ke)
+				}
+				ve, _, err := parseSpecExpr(m[7])
+				if err != nil {
+					sp.errf(where, "ghostset value: %v", err)
+					bad = true
+				}
+				gs.Val = ve
+				if !bad {
+					cur.GhostSets = append(cur.GhostSets, gs)
+				}
 			case "ghostinit":
 				// ghostinit name(key) = value   : key must denote an object allocated by this function
 				m := regexp.MustCompile(`^([A-Za-z_][A-Za-z0-9_]*)\((.*)\)\s*=\s*(.*)$`).FindStringSubmatch(rest)
@@ -679,13 +731,23 @@ func (sp *Specs) parseSpecText(file, text, pkgPath string) {
 					sp.errf(where, "bad ghostinit")
 					continue
 				}
-				ke, _, err1 := parseSpecExpr(m[2])
+				kparts := splitTop(m[2], ',')
+				ke, _, err1 := parseSpecExpr(strings.TrimSpace(kparts[0]))
 				ve, _, err2 := parseSpecExpr(m[3])
 				if err1 != nil || err2 != nil {
 					sp.errf(where, "ghostinit: %v %v", err1, err2)
 					continue
 				}
-				cur.GhostInit = append(cur.GhostInit, GhostInit{Ghost: m[1], Key: ke, Val: ve, Src: rest})
+				gi := GhostInit{Ghost: m[1], Key: ke, Val: ve, Src: rest}
+				if len(kparts) == 2 {
+					k2, _, err3 := parseSpecExpr(strings.TrimSpace(kparts[1]))
+					if err3 != nil {
+						sp.errf(where, "ghostinit: %v", err3)
+						continue
+					}
+					gi.Key2 = k2
+				}
+				cur.GhostInit = append(cur.GhostInit, gi)
 			case "assume":
 				if strings.TrimSpace(rest) == "nowrap" {
 					cur.NoWrap = true
@@ -700,6 +762,8 @@ func (sp *Specs) parseSpecText(file, text, pkgPath string) {
 				}
 			case "refines":
 				cur.Refines = append(cur.Refines, strings.Trim(strings.TrimSpace(rest), "\""))
+			case "abstractas":
+				cur.AbstractAs = strings.Trim(strings.TrimSpace(rest), "\"")
 			case "inline":
 				cur.Inline = true
 			case "pure":
